@@ -130,3 +130,63 @@ func (in *Interp) cancelFunc(c *ctxSt) Value {
 		return Value{}, true
 	}}}
 }
+
+// ---- sync.Map: an engine map per instance (atomic operations) ----
+
+func (in *Interp) syncMapOf(p Value) *MapV {
+	k := p.R.(*Value)
+	if m, ok := in.side[k].(*MapV); ok {
+		return m
+	}
+	m := newMap()
+	in.side[k] = m
+	return m
+}
+
+func init() {
+	ix := map[string]ixFn{
+		"(*sync.Map).Load": func(in *Interp, fr *Frame, a []Value) (Value, bool) {
+			m := in.syncMapOf(a[0])
+			in.raceAcquire(m)
+			if i, ok := in.mapFind(in.cur, m, a[1]); ok {
+				return tuple(m.Vals[i], mkBool(true)), true
+			}
+			return tuple(Value{K: KIface}, mkBool(false)), true
+		},
+		"(*sync.Map).Store": func(in *Interp, fr *Frame, a []Value) (Value, bool) {
+			m := in.syncMapOf(a[0])
+			in.mapSet(in.cur, m, a[1], a[2])
+			in.raceRelease(m)
+			return Value{}, true
+		},
+		"(*sync.Map).LoadOrStore": func(in *Interp, fr *Frame, a []Value) (Value, bool) {
+			m := in.syncMapOf(a[0])
+			in.raceAcquire(m)
+			if i, ok := in.mapFind(in.cur, m, a[1]); ok {
+				return tuple(m.Vals[i], mkBool(true)), true
+			}
+			in.mapSet(in.cur, m, a[1], a[2])
+			in.raceRelease(m)
+			return tuple(a[2], mkBool(false)), true
+		},
+		"(*sync.Map).Delete": func(in *Interp, fr *Frame, a []Value) (Value, bool) {
+			m := in.syncMapOf(a[0])
+			in.mapDel(in.cur, m, a[1])
+			in.raceRelease(m)
+			return Value{}, true
+		},
+		"(*sync.Map).LoadAndDelete": func(in *Interp, fr *Frame, a []Value) (Value, bool) {
+			m := in.syncMapOf(a[0])
+			in.raceAcquire(m)
+			if i, ok := in.mapFind(in.cur, m, a[1]); ok {
+				v := m.Vals[i]
+				in.mapDel(in.cur, m, a[1])
+				return tuple(v, mkBool(true)), true
+			}
+			return tuple(Value{K: KIface}, mkBool(false)), true
+		},
+	}
+	for k, f := range ix {
+		intrinsics[k] = f
+	}
+}
